@@ -7,6 +7,7 @@ package discovery_test
 // Service.Connect does with garbage underlay bytes is covered by the libp2p driver (connect-underlay).
 
 import (
+	"bufio"
 	"bytes"
 	"context"
 	"encoding/json"
@@ -14,6 +15,11 @@ import (
 	"fmt"
 	"io"
 	"log/slog"
+	"os"
+	"os/exec"
+	"path/filepath"
+	"strconv"
+	"strings"
 	"sync"
 	"testing"
 	"time"
@@ -43,6 +49,10 @@ type c06In struct {
 	Peers     []c06PI
 	Connected bool // what Topology.IsConnected answers
 	Cancel    bool // the handler's context is already cancelled
+	// stalled-workers: Stalled distinct unknown entries whose dials park until released; the handler's
+	// context is cancelled while it is blocked behind the busy workers; Lists handlers run at once
+	Stalled int `json:",omitempty"`
+	Lists   int `json:",omitempty"`
 }
 
 type c06Obs struct {
@@ -100,6 +110,8 @@ func (t *c06Topo) IsConnected(common.Address) bool { return t.connected }
 type c06P2P struct {
 	mu      sync.Mutex
 	dialled int
+	parked  int
+	gate    chan struct{} // nil: dials fail at once; else they park until it is closed
 }
 
 func (s *c06P2P) NewStream(context.Context, p2p.Peer, p2p.Header, p2p.StreamDesc) (p2p.Stream, error) {
@@ -108,11 +120,148 @@ func (s *c06P2P) NewStream(context.Context, p2p.Peer, p2p.Header, p2p.StreamDesc
 func (s *c06P2P) Connect(context.Context, []byte) (p2p.Peer, error) {
 	s.mu.Lock()
 	s.dialled++
+	g := s.gate
+	if g != nil {
+		s.parked++
+	}
 	s.mu.Unlock()
+	if g != nil {
+		<-g
+		s.mu.Lock()
+		s.parked--
+		s.mu.Unlock()
+	}
 	return p2p.Peer{}, errors.New("c06: dial refused")
+}
+func (s *c06P2P) counts() (dialled, parked int) {
+	s.mu.Lock()
+	defer s.mu.Unlock()
+	return s.dialled, s.parked
+}
+
+func c06Until(limit time.Duration, cond func() bool) bool {
+	deadline := time.Now().Add(limit)
+	for {
+		if cond() {
+			return true
+		}
+		if time.Now().After(deadline) {
+			return false
+		}
+		time.Sleep(2 * time.Millisecond)
+	}
+}
+
+func c06List(n, salt int) []byte {
+	var ps []c06PI
+	for i := 0; i < n; i++ {
+		ps = append(ps, c06PI{Addr: []byte{byte(salt), byte(i >> 8), byte(i), 9, 9, 9, 9, 9, 9, 9, 9, 9, 9, 9, 9, 9, 9, 9, 9, 1},
+			Und: []byte(fmt.Sprintf(`{"ID":"x%d-%d"}`, salt, i))})
+	}
+	return c06In{Peers: ps}.wire()
+}
+
+// c06RunStalled: all ten check workers are busy with dials that do not return, the handler (or several) is
+// blocked behind them, its stream context is cancelled, then the dials end. The discovery service must
+// survive (its workers run on goroutines of its own) and process a further list afterwards.
+func c06RunStalled(in c06In, slow time.Duration) (obs c06Obs) {
+	defer func() {
+		if r := recover(); r != nil {
+			obs = c06Obs{Panic: true, Note: fmt.Sprint(r)}
+		}
+	}()
+	sv := &c06P2P{gate: make(chan struct{})}
+	d := discovery.New(&c06Topo{}, sv, slog.New(slog.NewTextHandler(io.Discard, nil)))
+	defer d.Close()
+	lists := in.Lists
+	if lists < 1 {
+		lists = 1
+	}
+	ctx, cancel := context.WithCancel(context.Background())
+	defer cancel()
+	done := make(chan error, lists)
+	for l := 0; l < lists; l++ {
+		raw := c06List(in.Stalled, l+1)
+		go func() {
+			defer func() {
+				if r := recover(); r != nil {
+					done <- fmt.Errorf("handler panicked: %v", r)
+				}
+			}()
+			done <- d.Streams()[0].Handler(ctx, p2p.Peer{Type: p2p.PeerTypeBootnode}, &c06Stream{raw: raw})
+		}()
+	}
+	// all ten workers parked in Connect, and nothing else moves: the handlers are blocked behind them
+	if !c06Until(10*time.Second*slow, func() bool { _, p := sv.counts(); return p >= 10 }) {
+		return c06Obs{Res: 2, Note: "the ten workers never got busy"}
+	}
+	time.Sleep(60 * time.Millisecond * slow)
+	cancel() // the sender goes away
+	for l := 0; l < lists; l++ {
+		select {
+		case err := <-done:
+			if err != nil && strings.HasPrefix(err.Error(), "handler panicked") {
+				return c06Obs{Panic: true, Note: err.Error()}
+			}
+		case <-time.After(10 * time.Second * slow):
+			return c06Obs{Res: 1, Note: "a handler did not return after its context was cancelled"}
+		}
+	}
+	close(sv.gate) // the stalled dials end
+	// quiescence: no parked dial and the number of dials stable for a while
+	last, stable := -1, 0
+	c06Until(10*time.Second*slow, func() bool {
+		n, p := sv.counts()
+		if p == 0 && n == last {
+			stable++
+		} else {
+			stable = 0
+		}
+		last = n
+		time.Sleep(10 * time.Millisecond)
+		return stable >= 15
+	})
+	before, _ := sv.counts()
+	// liveness: a further small list is processed
+	pctx, pcancel := context.WithTimeout(context.Background(), 10*time.Second*slow)
+	defer pcancel()
+	if err := d.Streams()[0].Handler(pctx, p2p.Peer{Type: p2p.PeerTypeBootnode}, &c06Stream{raw: c06List(3, 200)}); err != nil {
+		return c06Obs{Res: 1, Note: "a later list was refused: " + err.Error()}
+	}
+	if !c06Until(10*time.Second*slow, func() bool { n, _ := sv.counts(); return n >= before+3 }) {
+		n, _ := sv.counts()
+		return c06Obs{Res: 1, Note: fmt.Sprintf("a later list was not processed: %d of 3 entries dialled", n-before)}
+	}
+	obs.Dialled = before
+	return obs
+}
+
+func c06Inp(in c06In) string {
+	if in.Entry == "peers-list-stalled" {
+		return coqApp("EPeersListStalled", coqN(uint64(in.Stalled)), coqN(uint64(in.Lists)))
+	}
+	inp := "(EPeersList None)"
+	if !in.Eof {
+		m := new(discoverypb.PeerList)
+		if proto.Unmarshal(in.wire(), m) == nil {
+			var ps []string
+			for _, p := range m.Peers {
+				ps = append(ps, coqRecord("pe_addrlen", coqN(uint64(len(p.EthAddress))), "pe_underlay", coqN(uint64(len(p.Underlay)))))
+			}
+			inp = "(EPeersList (Some " + coqList(ps) + "))"
+		}
+	}
+	return inp
 }
 
 func c06Run(in c06In) (obs c06Obs, inp string) {
+	if in.Entry == "peers-list-stalled" {
+		slow, _ := strconv.Atoi(os.Getenv("VERIF_SLOW"))
+		if slow < 1 {
+			slow = 1
+		}
+		return c06RunStalled(in, time.Duration(slow)), c06Inp(in)
+	}
 	raw := in.wire()
 	inp = "(EPeersList None)"
 	if !in.Eof {
@@ -150,20 +299,164 @@ func c06Run(in c06In) (obs c06Obs, inp string) {
 	return
 }
 
+// ---- child process protocol: discovery's dispatcher and workers are goroutines of its own, a panic there
+// cannot be recovered by the driver, so every case runs in a child (this test binary re-executed on the input
+// file); a crash is attributed to the case in flight and the child restarted for the rest -------------------
+
+type c06ChildLine struct {
+	I     int     `json:"i"`
+	Start bool    `json:"start,omitempty"`
+	Obs   *c06Obs `json:"obs,omitempty"`
+}
+
+func c06Child(t *testing.T) {
+	data, err := os.ReadFile(os.Getenv("VERIF_C06_CHILD_IN"))
+	if err != nil {
+		t.Fatalf("c06 child: %v", err)
+	}
+	from, _ := strconv.Atoi(os.Getenv("VERIF_C06_CHILD_FROM"))
+	f, err := os.OpenFile(os.Getenv("VERIF_C06_CHILD_RES"), os.O_APPEND|os.O_CREATE|os.O_WRONLY, 0o644)
+	if err != nil {
+		t.Fatalf("c06 child: %v", err)
+	}
+	defer f.Close()
+	put := func(l c06ChildLine) {
+		b, _ := json.Marshal(l)
+		f.Write(append(b, '\n'))
+	}
+	lines := strings.Split(strings.TrimSpace(string(data)), "\n")
+	for i := from; i < len(lines); i++ {
+		var in c06In
+		if err := json.Unmarshal([]byte(lines[i]), &in); err != nil {
+			t.Fatalf("c06 child: bad input %d: %v", i, err)
+		}
+		put(c06ChildLine{I: i, Start: true})
+		obs, _ := c06Run(in)
+		put(c06ChildLine{I: i, Obs: &obs})
+	}
+}
+
+func c06CrashNote(out string) string {
+	lines := strings.Split(strings.TrimSpace(out), "\n")
+	why := ""
+	for _, l := range lines {
+		if strings.HasPrefix(l, "fatal error:") || strings.HasPrefix(l, "panic:") {
+			why = l
+			break
+		}
+	}
+	if len(lines) > 6 {
+		lines = lines[len(lines)-6:]
+	}
+	note := why + " | ... " + strings.Join(lines, " / ")
+	if len(note) > 600 {
+		note = note[:600]
+	}
+	return note
+}
+
+func c06RunInChildren(ins []c06In, slow int) []c06Obs {
+	out := make([]c06Obs, len(ins))
+	if len(ins) == 0 {
+		return out
+	}
+	dir := filepath.Dir(os.Getenv("VERIF_OUT"))
+	inPath := filepath.Join(dir, fmt.Sprintf("c06_%s_child_%d.in.jsonl", c06Pkg, os.Getpid()))
+	resPath := filepath.Join(dir, fmt.Sprintf("c06_%s_child_%d.res.jsonl", c06Pkg, os.Getpid()))
+	defer os.Remove(inPath)
+	defer os.Remove(resPath)
+	var sb strings.Builder
+	for _, in := range ins {
+		b, _ := json.Marshal(in)
+		sb.Write(b)
+		sb.WriteByte('\n')
+	}
+	if err := os.WriteFile(inPath, []byte(sb.String()), 0o644); err != nil {
+		for i := range out {
+			out[i] = c06Obs{Res: 2, Note: "cannot write the child's input: " + err.Error()}
+		}
+		return out
+	}
+	from, stalled := 0, false
+	for from < len(ins) {
+		os.Remove(resPath)
+		ctx, cancel := context.WithTimeout(context.Background(), time.Duration(slow)*10*time.Minute)
+		cmd := exec.CommandContext(ctx, os.Args[0], "-test.run", "^TestVerifC06$", "-test.count=1", "-test.timeout=0")
+		cmd.Env = append(os.Environ(), "VERIF_C06_CHILD_IN="+inPath, "VERIF_C06_CHILD_RES="+resPath,
+			"VERIF_C06_CHILD_FROM="+strconv.Itoa(from), "VERIF_SLOW="+strconv.Itoa(slow))
+		outb, runErr := cmd.CombinedOutput()
+		cancel()
+		started, done := -1, from-1
+		if f, err := os.Open(resPath); err == nil {
+			sc := bufio.NewScanner(f)
+			sc.Buffer(make([]byte, 1<<20), 1<<26)
+			for sc.Scan() {
+				var l c06ChildLine
+				if json.Unmarshal(sc.Bytes(), &l) != nil {
+					continue
+				}
+				if l.Start {
+					started = l.I
+				} else if l.Obs != nil && l.I >= 0 && l.I < len(ins) {
+					out[l.I] = *l.Obs
+					done = l.I
+				}
+			}
+			f.Close()
+		}
+		if started > done { // the child died inside case [started]
+			out[started] = c06Obs{Panic: true, Note: c06CrashNote(string(outb))}
+			done = started
+		} else if done < from { // it never started case [from]: once more, then not classified
+			if !stalled {
+				stalled = true
+				continue
+			}
+			out[from] = c06Obs{Res: 2, Note: fmt.Sprintf("child could not run this case: %v; %s", runErr, c06CrashNote(string(outb)))}
+			done = from
+		}
+		stalled = false
+		from = done + 1
+	}
+	return out
+}
+
 func TestVerifC06(t *testing.T) {
+	if os.Getenv("VERIF_C06_CHILD_IN") != "" {
+		c06Child(t)
+		return
+	}
 	e := vfOpen(t, 200)
 	defer e.Close()
-	run := func(class string, in c06In) {
-		obs, inp := c06Run(in)
-		o := "OPanic"
-		if !obs.Panic {
-			o = coqApp("ONoPanic", coqN(uint64(obs.Res)))
-		}
-		e.Emit(class, in, obs, func(id int) string { return coqRecord("id", coqN(uint64(id)), "inp", inp, "obs", o) })
+	type pending struct {
+		class string
+		in    c06In
 	}
+	var queue []pending
+	run := func(class string, in c06In) { queue = append(queue, pending{class, in}) }
+	flush := func() {
+		ins := make([]c06In, len(queue))
+		for i, p := range queue {
+			ins[i] = p.in
+		}
+		for i, obs := range c06RunInChildren(ins, e.Slow) {
+			obs, in, class := obs, queue[i].in, queue[i].class
+			inp := c06Inp(in)
+			o := "OPanic"
+			if !obs.Panic {
+				o = coqApp("ONoPanic", coqN(uint64(obs.Res)))
+			}
+			e.Emit(class, in, obs, func(id int) string { return coqRecord("id", coqN(uint64(id)), "inp", inp, "obs", o) })
+		}
+		queue = nil
+	}
+	defer flush()
 	for _, raw := range e.Replay {
 		var in c06In
 		if err := json.Unmarshal(raw, &in); err != nil || in.Pkg != c06Pkg {
+			continue
+		}
+		if in.Entry == "peers-list-stalled" && (in.Stalled < 1 || in.Stalled > 2000 || in.Lists > 16) {
 			continue
 		}
 		run("replay", in)
@@ -226,5 +519,13 @@ func TestVerifC06(t *testing.T) {
 			in.Cancel = r.Intn(8) == 0
 			run("hostile-list", in)
 		}
+	}
+	// all workers busy with stalled dials, the sender goes away, the dials end
+	sizes := []int{11, 12, 25}
+	if e.Tier == "thorough" {
+		sizes = []int{11, 12, 13, 20, 21, 25, 30, 40}
+	}
+	for i, n := range sizes {
+		run("stalled-workers", c06In{Pkg: c06Pkg, Entry: "peers-list-stalled", Stalled: n, Lists: 1 + i%2*2})
 	}
 }
